@@ -854,3 +854,28 @@ func pkgsOf(p *Prog, paths ...string) []*packages.Package {
 	}
 	return out
 }
+
+// resultsOf returns the values returned by r, looking through go/ssa's defer-spilled results
+// (`*t1 = v; rundefers; t2 = *t1; return t2`).
+func resultsOf(r *ssa.Return) []ssa.Value {
+	out := make([]ssa.Value, len(r.Results))
+	for i, v := range r.Results {
+		out[i] = v
+		u, ok := v.(*ssa.UnOp)
+		if !ok || u.Op != token.MUL {
+			continue
+		}
+		a, ok := u.X.(*ssa.Alloc)
+		if !ok || u.Block() != r.Block() {
+			continue
+		}
+		instrs := r.Block().Instrs
+		for j := instrIndex(u) - 1; j >= 0; j-- {
+			if s, ok := instrs[j].(*ssa.Store); ok && s.Addr == a {
+				out[i] = s.Val
+				break
+			}
+		}
+	}
+	return out
+}
